@@ -35,6 +35,12 @@ def base(ctx, n):
                     p.append({'part': rng.choice(gen.PARTS), 'head': ('norm', 'c', 0), 'body': [(rng.choice('nm'), ('tel', f))]})
         elif k < 0.9:
             p = gen.context_program(rng, atoms) + [c04.head_rule(rng, atoms, 2) for _ in range(rng.randint(1, 2))]
+            if rng.random() < 0.6:
+                # a second head formula that differs from an earlier one in one operator only (weak/strong or dual sibling), in a rule of
+                # its own: which of the two is registered first must not matter
+                r0 = rng.choice([r for r in p if r['head'][0] == 'tel'])
+                g = gen.sibling(rng, r0['head'][1], allowed=set(gen.HEAD_UN + gen.HEAD_BIN + ['true', 'false']))
+                p.append({'part': r0['part'], 'head': ('tel', g), 'body': [gen.core_body_lit(rng, atoms)]})
             if findings.in_open_class(p, 'C04'):
                 p = gen.core_program(rng, atoms, (2, 4))
         else:
